@@ -66,6 +66,7 @@ CONSTANTS
   WithBatch = {withbatch}
   WithBurst = {withburst}
   WithFaults = {withfaults}
+  WithLifecycle = {withlife}
   FaultPairs = {faultpairs}
   MaxStates = {maxstates}
 VIEW View
@@ -138,7 +139,7 @@ def _set(xs) -> str:
 
 def model_check(built: List[Built], workdir: str, *, engine="sync", gvals=("T", "F"), with_can=False,
                 workers=4, timeout=1800, coverage=False, props=ALL_PROPS, max_states=10 ** 8, with_batch=False, with_burst=False, with_faults=False,
-                fault_pairs=False) -> Tuple[tla.TLCResult, List[Edge]]:
+                fault_pairs=False, with_lifecycle=False) -> Tuple[tla.TLCResult, List[Edge]]:
     os.makedirs(workdir, exist_ok=True)
     tla.write_batch(os.path.join(workdir, "Batch.tla"), [b.defn for b in built])
     cfg = MC_CFG.format(engine=engine, gvals="{" + ", ".join(f'"{g}"' for g in gvals) + "}",
@@ -146,7 +147,8 @@ def model_check(built: List[Built], workdir: str, *, engine="sync", gvals=("T", 
                         maxstates=max_states, withbatch="TRUE" if with_batch else "FALSE",
                         withburst="TRUE" if with_burst else "FALSE",
                         withfaults="TRUE" if with_faults else "FALSE",
-                        faultpairs="TRUE" if fault_pairs else "FALSE")
+                        faultpairs="TRUE" if fault_pairs else "FALSE",
+                        withlife="TRUE" if with_lifecycle else "FALSE")
     edges: List[Edge] = []
     res = tla.run_tlc("MCCore", cfg, workdir, workers=workers, timeout=timeout, coverage=coverage,
                       json_sink=lambda o: edges.append(Edge(o)))
